@@ -661,14 +661,8 @@ pub fn split_at_first(input: &str, delimiter: char) -> (String, Option<String>) 
     if let Some(pos) = input.find(delimiter) {
         let (first, rest) = input.split_at(pos);
         let rest = &rest[1..]; // Skip the delimiter
-        (
-            first.to_string(),
-            if rest.is_empty() {
-                None
-            } else {
-                Some(rest.to_string())
-            },
-        )
+        // An empty part after the delimiter is kept ("1/" is not "1"): the caller decides
+        (first.to_string(), Some(rest.to_string()))
     } else {
         (input.to_string(), None)
     }
